@@ -32,17 +32,93 @@ var propSpecs = map[string]*PropSpec{}
 func addProp(p *PropSpec) { propSpecs[p.ID] = p }
 
 func init() {
+	registerMore()
 	addProp(&PropSpec{
 		ID: "C12",
 		Explanation: "Header-framing Recv executed symbolically from /repo's channel/hdr.go with the Content-Length value an arbitrary non-negative 64-bit int " +
 			"(decimal text kept as an opaque integer token; strconv.Atoi is its inverse) and three classes of previous receive-buffer length; " +
 			"the makeslice length/capacity check of the Go runtime is an explicit path obligation, so an overflowing size*2 is found by the solver.",
-		Bounds: []string{"Content-Length: any int in [0, 2^63)", "previous buffer length in {0, 8, 64}", "body absent (ReadFull stub returns EOF)",
-			"allocations above 65536 elements are pruned (outside the claim): sizes in (32768, 2^47] are not decided"},
+		Bounds: []string{"Content-Length: any int in [0, 3] or (2^15, 2^63)", "previous buffer length in {0, 8, 64}", "body absent (ReadFull / CopyN stubs return EOF)",
+			"allocations above 65536 elements are pruned (outside the claim): sizes in (2^15, 2^24] are not decided by this harness"},
 		Outside:     []string{"RawJSON framing (encoding/json streaming decoder)", "memory exhaustion below the makeslice limit"},
 		Assumptions: append([]string{"bufio.Reader.ReadString is redirected to a line script in the size harness (lines carry the opaque integer token); io.ReadFull stub: 0 bytes -> io.EOF", "runtime: make([]byte, n, c) panics iff n<0 or n>c or c>2^48 (linux/amd64 maxAlloc)"}, commonAssumptions...),
 		Harnesses: []HarnessSpec{
 			{Dir: "channel", Name: "Harness_C12_hdr_size", Reach: []string{"recv-returned"}},
+		},
+	})
+}
+
+var jsonAssumption = "encoding/json is a contract stub over opaque JSON tokens (gosym/json.go): validity, kind per Go type, null handling, RawMessage without surrounding white space, compact output without raw control bytes, last duplicate key wins, case-insensitive struct field match"
+
+func registerMore() {
+	addProp(&PropSpec{
+		ID: "C02",
+		Explanation: "One inbound record (a single member; thorough: also arrays of 1..2 members) is generated from symbolic choices - any subset of the keys jsonrpc/id/method/params/error/result/unknown, each value an opaque JSON token of symbolic kind - " +
+			"and pushed through the real jmessages.parseJSON, filterBatchLocked, dispatchLocked closure (checkAndAssignLocked, invoke, tasks.responses, deliver, encode). The reply bytes are parsed back and compared with a reference classifier written from the JSON-RPC 2.0 spec and the README. " +
+			"Token kinds, first bytes, ids and error codes stay symbolic, so each path is decided for all values; map iteration order of the member parser is explored exhaustively for members with <= 3 keys.",
+		Bounds: []string{"quick: single non-batch member; value classes: version {2.0, other string, non-string}, method {ok, nosuch, rpc.other, empty, non-string, null}, error {object, non-object}, unknown key only with request fields",
+			"thorough: all classes (adds null version/error, failing handler, rpc.serverInfo), arrays of 1..2 members", "all map iteration orders for <= 3 present keys (thorough: <= 4), one fixed order otherwise",
+			"ids of members of one batch pairwise different (duplicates: C07)", "one unknown key stands for any number"},
+		Outside:     []string{"undecodable top-level JSON / empty batch (C13 harness covers ParseRequests; the reader's pushErrorLocked path is in C08)", "random and mutated records beyond the bound (sampling is not done)", "duplicate keys inside one object (resolved by encoding/json)"},
+		Assumptions: append([]string{jsonAssumption, "reply-shaped member = carries a result or a well-formed error object and no method name (method absent, null, empty or not a string)"}, commonAssumptions...),
+		Harnesses: []HarnessSpec{
+			{Dir: "jrpc2", Name: "Harness_C02_single", Reach: []string{"dispatched", "silent", "single-reply"}},
+			{Dir: "jrpc2", Name: "Harness_C02_batch", Reach: []string{"batch-reply"}, ThoroughOnly: true},
+		},
+	})
+	addProp(&PropSpec{
+		ID: "C03",
+		Explanation: "A real started Server (reader, dispatcher, per-batch and handler goroutines as engine threads) over an instrumented channel receives two (thorough: up to three) records whose members are symbolically notifications or calls; every handler blocks on a gate, an environment thread opens the notification gates in a symbolic order, calls stay gated. " +
+			"Scheduling decisions at blocking points are explored up to the delay bound. Checked at quiescence: a notification of an earlier record has exited before any handler of a later record is entered; gated calls do not hold up later arrivals below the concurrency limit; handler count <= Concurrency; each handler ran exactly once.",
+		Bounds: []string{"records: 2 (thorough 2..3); members per record: 1..2 (quick: second record 1)", "Concurrency 2 (thorough {1,2})", "delay-bounded scheduler: <= 2 deviations from the deterministic lowest-thread-first order (thorough 3); context switches only at blocking operations (preemption bound 0)", "<= 8 threads"},
+		Outside:     []string{"schedules needing more delays or a preemption inside a critical section", "concurrent Stop/CancelRequest/push during dispatch (C08/C09 harnesses)"},
+		Assumptions: append([]string{jsonAssumption, "sync.Mutex/WaitGroup, channels, select and context are engine intrinsics; x/sync/semaphore and mds/queue are executed from source"}, commonAssumptions...),
+		Harnesses: []HarnessSpec{
+			{Dir: "jrpc2", Name: "Harness_C03_order", Reach: []string{"quiescent", "ordered-pair", "done"}, Tweak: func(c *Config, th bool) {
+				c.Delays = 2
+				if th {
+					c.Delays = 3
+				}
+			}},
+		},
+	})
+	addProp(&PropSpec{
+		ID: "C14",
+		Explanation: "Handler errors are built from every constructor (Error with any int32 code / symbolic message / optional data token, Code.Err, Errorf, value- and pointer-receiver ErrCoder types, context sentinels, plain errors), wrapped 0..2 (thorough 0..3) times with %w, and pushed through the real tasks.responses, jmessages.toJSON, parseJSON, Client.deliverLocked, Response.wait and filterError; " +
+			"the solver decides the code equalities over the full int32 range. A second harness decides ErrorCode(c.Err()) == c for every int32 c and that WithData leaves its receiver unchanged for nil / marshalable / unmarshalable data.",
+		Bounds:      []string{"wrap depth <= 2 (thorough <= 3)", "message length <= 2 bytes (symbolic)", "all int32 codes (bit-vector)"},
+		Outside:     []string{"an ErrCoder reporting NoError for a non-nil error (excluded by assumption; the property exempts NoError)", "json.Marshal of arbitrary handler results (contract stub)"},
+		Assumptions: append([]string{jsonAssumption, "errors.Is/As re-implemented in the engine following package errors (Is/As/Unwrap methods are the interpreted ones); fmt.Errorf keeps the %w operand reachable through Unwrap"}, commonAssumptions...),
+		Harnesses: []HarnessSpec{
+			{Dir: "jrpc2", Name: "Harness_C14_chain", Reach: []string{"delivered", "canceled-sentinel", "deadline-sentinel"}},
+			{Dir: "jrpc2", Name: "Harness_C14_code", Reach: []string{"code-roundtrip", "withdata"}},
+		},
+	})
+	addProp(&PropSpec{
+		ID: "C17",
+		Explanation: "Method names are symbolic byte strings (every byte arbitrary, lengths by case split). handler.Map and ServiceMap (one and two levels) are executed with symbolic registered names and compared with a reference 'first dot' split; Server.assignLocked is executed with symbolic names, both DisableBuiltin settings and a spying assigner; " +
+			"setContext/invoke are executed to check InboundRequest(ctx) and ServerFromContext(ctx) in assigner and handler.",
+		Bounds:      []string{"method names <= 4 bytes (Map 3, ServiceMap 4, builtin gate 5; thorough 6/7), any byte values", "registered names <= 3 bytes, service names <= 2 bytes", "ServiceMap nesting depth <= 2"},
+		Outside:     []string{"names longer than the bound", "rpc.serverInfo's metrics content (expvar is a stub)"},
+		Assumptions: append([]string{"sort.Strings is an engine intrinsic (insertion sort with symbolic comparisons); strings.SplitN/HasPrefix are rope-aware intrinsics"}, commonAssumptions...),
+		Harnesses: []HarnessSpec{
+			{Dir: "handler", Name: "Harness_C17_map", Reach: []string{"hit", "miss"}},
+			{Dir: "handler", Name: "Harness_C17_servicemap", Reach: []string{"nodot", "dispatched", "unknown-service"}},
+			{Dir: "handler", Name: "Harness_C17_nested", Reach: []string{"nested", "empty-segment"}},
+			{Dir: "jrpc2", Name: "Harness_C17_builtin", Reach: []string{"reserved", "serverinfo", "assigned"}},
+			{Dir: "jrpc2", Name: "Harness_C17_context", Reach: []string{"handler-ran"}},
+		},
+	})
+	addProp(&PropSpec{
+		ID: "C07",
+		Explanation: "Inductive step over the server's reservation table: from an arbitrary state satisfying the invariant 'reserved ids == ids of in-flight calls, each with the cancel function of its handler's context' " +
+			"(0..2 in-flight calls with arbitrary distinct string/number ids as opaque tokens) one real critical section is executed with symbolic arguments - a whole batch (checkAndAssignLocked, invoke, tasks.responses, deliver), CancelRequest of an arbitrary id, or stopLocked - " +
+			"and the solver decides id (in)equalities, so the step covers histories of any length with any ids.",
+		Bounds: []string{"<= 2 in-flight calls in the pre-state", "batch of 1..2 members, each with or without an arbitrary id", "methods: ok / failing / unknown / reserved rpc.* / empty; optional deferred validation error", "handlers atomic (run inline)"},
+		Outside:     []string{"batches of 3 or more members", "interleavings inside one critical section (excluded by the mutex; see C10)"},
+		Assumptions: append([]string{jsonAssumption, "context package modelled by engine intrinsics (cancel flags with parent links)"}, commonAssumptions...),
+		Harnesses: []HarnessSpec{
+			{Dir: "jrpc2", Name: "Harness_C07_step", Reach: []string{"batch-done", "cancel-done", "stop-done", "duplicate-rejected", "cancel-hit"}},
 		},
 	})
 }
